@@ -7,6 +7,7 @@ import (
 	"bufio"
 	"fmt"
 	"os"
+	"runtime/debug"
 )
 
 type lineFn func(args []string, line string) string
@@ -14,6 +15,8 @@ type lineFn func(args []string, line string) string
 var commands = map[string]lineFn{}
 
 func main() {
+	// a runaway recursion in the library should end the process quickly (the default limit is 1 GB)
+	debug.SetMaxStack(64 << 20)
 	if len(os.Args) < 2 {
 		fmt.Fprintln(os.Stderr, "usage: implrun <area> [args]")
 		os.Exit(2)
